@@ -1059,6 +1059,9 @@ def bookkeeping_case(run, be, i):
         try:
             be.set_seed(crng.randrange(2 ** 31))
             r = c(nshots=nshots)
+            # without any collapsing measurement the ordinary execution path is taken and the shots
+            # are only drawn here (one call for all shots); after shot-by-shot execution nothing is drawn
+            reg = r.samples(binary=True, registers=True)
         finally:
             del be.sample_shots
         coll = [k for k, g in enumerate(mgates) if g.collapse]
@@ -1070,7 +1073,6 @@ def bookkeeping_case(run, be, i):
         if shot_draws is None:
             info["draws"] = draws
             return info, items, "unexpected number of sampling calls"
-        reg = r.samples(binary=True, registers=True)
         psi0 = "[" + "; ".join(["zi1"] + ["zi0"] * (2 ** n - 1)) + "]"
         info["per_shot"] = []
         for s in range(nshots):
